@@ -131,11 +131,10 @@ was not Closed: Close event and `close_channel()` (sender dropped) -/
 def closeChan (c : Chan) : Chan :=
   if c.closed then c else { closed := true, events := c.events + 1, senderDropped := true }
 
-/-- `SctpInner::close_data_channel` as the code has it (since the SCTP fix "close_data_channel announces
-Close at most once"): a channel that is already Closed is left alone; otherwise Closing → (RE-CONFIG) →
-`swap(Closed)` and one `Close` event. Still no `close_channel()`: the event sender stays alive. -/
-def rawCloseChan (c : Chan) : Chan :=
-  if c.closed then c else { c with closed := true, events := c.events + 1 }
+/-- `SctpInner::close_data_channel` as the code has it: a channel that is already Closed is left alone
+(SCTP fix "announces Close at most once"); otherwise Closing → (RE-CONFIG) → `swap(Closed)`, one `Close`
+event and `close_channel()` (round-3 fix 2390d12: the event sender is dropped like in every other closer). -/
+def rawCloseChan (c : Chan) : Chan := closeChan c
 
 def rawCloseAt : List Chan → Nat → List Chan
   | [], _ => []
@@ -252,8 +251,8 @@ inductive Act
   | drvTop | drvRole | drvDescs | drvStart | drvLoops | drvIce | drvDtls | drvGrace
   -- SCTP runner
   | sctpDtls | sctpClose
-  -- DTLS task
-  | dtlsExit | dtlsSock
+  -- DTLS task (`dtlsTimeout`: its own 30 s handshake deadline, `DTLS_HANDSHAKE_TIMEOUT`)
+  | dtlsExit | dtlsSock | dtlsTimeout
 deriving DecidableEq, Repr
 
 /-- does the driving loop hold a strong `Arc<PeerConnectionInner>` across its await? Only while it is
@@ -283,11 +282,12 @@ def closeB (s : St) : St :=
            held := false, close := .b,
            chans := s.chans.map closeChan }
 
-/-- block C: `dtls.close()`, `ice_transport.stop()`, tracked tasks aborted -/
+/-- block C: `dtls.close()`, `ice_transport.stop()`. Nothing is aborted here (the abort of the tracked
+tasks, 4a209bd, was reverted in round 3): the driving loop and the runners end cooperatively — on the
+ICE `Closed` state, the DTLS `Closed` state, the SCTP close request. -/
 def closeC (s : St) : St :=
-  -- … and `abort_tracked_tasks()` (fix 4a209bd): the driving-loop task and what it spawned are aborted
-  abortLoops { s with dtlsCloseReq := if s.dtls = .absent then s.dtlsCloseReq else true,
-                      ice := .closed, close := .finished, drv := .done }
+  { s with dtlsCloseReq := if s.dtls = .absent then s.dtlsCloseReq else true,
+           ice := .closed, close := .finished }
 
 def enabled (s : St) : Act → Bool
   | .callClose _ => s.close == .none || s.close == .finished
@@ -322,6 +322,7 @@ def enabled (s : St) : Act → Bool
       (s.sctp == .waiting || s.sctp == .running) && s.sctpCloseReq
   | .dtlsExit => !s.dtlsExited && s.dtlsCloseReq && s.dtls != .absent
   | .dtlsSock => !s.dtlsExited && s.ice == .closed && (s.dtls == .handshaking || s.dtls == .connected)
+  | .dtlsTimeout => !s.dtlsExited && s.dtls == .handshaking
 
 /-- the DTLS-down reason string of the SCTP runner (both its wait phase, fix 8df52c2, and its loop) -/
 def whyOfDtls (d : DtlsSt) : SctpWhy := if d = .failed then .dtlsFailed else .dtlsClosed
@@ -380,12 +381,14 @@ def apply (s : St) : Act → St
     else { s with iceSeen := s.ice }
   | .drvDtls =>
     if dtlsDown s.dtls then
+      -- … and `close_data_channels()` (round-3 fix: channels that have no association to close them)
       abortLoops { setPeer (setReasonIfNone s (if s.dtls = .failed then .dtlsFailed else .dtlsClosed)) .disconnected with
-                   dtlsSeen := s.dtls, drv := .done }
+                   dtlsSeen := s.dtls, drv := .done, chans := s.chans.map closeChan }
     else { s with dtlsSeen := s.dtls }
   | .drvGrace =>
     let s0 := setPeer (setReasonIfNone s .iceDisconnected) .disconnected
-    let s1 := { s0 with grace := false, sctpCloseReq := if s.held then true else s.sctpCloseReq, blocked := if s.held then 0 else s.blocked }
+    let s1 := { s0 with grace := false, sctpCloseReq := if s.held then true else s.sctpCloseReq, blocked := if s.held then 0 else s.blocked,
+                        chans := s.chans.map closeChan }   -- `close_data_channels()` (round-3 fix)
     { abortLoops s1 with drv := .idle }
   | .sctpDtls =>
     if s.sctp = .waiting then
@@ -395,6 +398,7 @@ def apply (s : St) : Act → St
   | .sctpClose => sctpEnd { s with why := match s.why with | none => some .localClose | w => w }
   | .dtlsExit => { s with dtlsExited := true, dtls := .closed }   -- publishes Closed (fix f59957e)
   | .dtlsSock => { s with dtls := if s.dtls = .handshaking then .failed else .closed, dtlsExited := true }
+  | .dtlsTimeout => { s with dtls := .failed, dtlsExited := true }
 
 /-- an action that is not enabled is a no-op -/
 def step (s : St) (a : Act) : St := if enabled s a then apply s a else s
@@ -404,7 +408,7 @@ def run (s : St) (as : List Act) : St := as.foldl step s
 /-- actions of the implementation's own tasks (everything except application and environment) -/
 def internalActs : List Act :=
   [.closeStep, .drvTop, .drvRole, .drvDescs, .drvStart, .drvLoops, .drvIce, .drvDtls, .drvGrace,
-   .sctpDtls, .sctpClose, .dtlsExit, .dtlsSock]
+   .sctpDtls, .sctpClose, .dtlsExit, .dtlsSock, .dtlsTimeout]
 
 def isInternal (a : Act) : Bool := internalActs.contains a
 
@@ -418,7 +422,7 @@ def terminal (s : St) : Bool :=
 
 def strictTerminal (s : St) : Bool := (s.peer == .failed || s.peer == .closed) && s.reason.isSome
 
-inductive Call | parkedSend | sendData | createOffer | setRemoteOffer | waitForConnected | createDataChannel | dcRecv (i : Nat)
+inductive Call | parkedSend | sendData | createOffer | setRemoteOffer | waitForConnected | createDataChannel | dcRecv (i : Nat) | pcRecv
 deriving DecidableEq, Repr
 
 inductive Outcome | errNow | okNow | pending
@@ -430,7 +434,7 @@ association errors at once: state Closed);
 `create_offer` / `set_remote_description(offer)`: signaling state must be `Stable`;
 `wait_for_connected`: returns on Connected / Failed / Closed, otherwise waits;
 `create_data_channel`: never blocks;
-`wait_for_connected` also returns (error) in `Disconnected` once a disconnect reason is recorded;
+`wait_for_connected` also returns (error) in `Disconnected` once a disconnect reason other than `IceDisconnected` is recorded;
 `DataChannel::recv`: returns `None` once the channel's sender was dropped (`close_channel`), else waits. -/
 def call (s : St) : Call → Outcome
   | .parkedSend => if s.blocked > 0 then .pending else .errNow
@@ -440,12 +444,16 @@ def call (s : St) : Call → Outcome
   | .waitForConnected =>
     if s.peer == .connected then .okNow
     else if s.peer == .failed || s.peer == .closed then .errNow
-    else if s.peer == .disconnected && s.reason.isSome then .errNow   -- fix 3448715
+    -- fix 3448715, refined in round 3: `IceDisconnected` is the recoverable "cycling transport" state
+    else if s.peer == .disconnected && s.reason.isSome && s.reason != some .iceDisconnected then .errNow
     else .pending
   | .createDataChannel => .okNow
   | .dcRecv i => match s.chans[i]? with
     | some c => if c.senderDropped then .okNow else .pending
     | none => .errNow
+  -- `PeerConnection::recv()` with the event queue drained: ends (None) once the connection is Closed
+  -- (round-3 fix), otherwise waits for the next event
+  | .pcRecv => if s.peer == .closed then .okNow else .pending
 
 /-! ### phase states (initial states of the harness runs) -/
 
